@@ -189,7 +189,7 @@ def quantum(q: qubit, r: qubit) -> bool:
 
 
 @guppy
-def arr(xs: array[int, 3]) -> int:
+def arr(xs: array[int, 3] @ owned) -> int:
     s = 0
     for x in xs:
         s += x
@@ -206,8 +206,31 @@ def use_overload(x: int) -> float:
 
 
 @guppy
-def main_entry() -> int:
-    return caller(3) + use_struct(2)
+def main_entry() -> float:
+    return use_struct(caller(3))
+
+
+@guppy
+def burn1(n: int) -> int:
+    s = 0
+    for i in range(n):
+        s += i
+    return s
+
+
+@guppy
+def nest(n: int, m: int) -> int:
+    s = 0
+    for i in range(n):
+        for j in range(m):
+            s += i * j
+    return s
+
+
+@guppy
+def ctor_value(x: int) -> float:
+    mk = Pt
+    return mk(x, 1.5).norm()
 
 
 POOL = {
@@ -219,5 +242,28 @@ POOL = {
     "use_generic_closure": use_generic_closure, "ct_sum": ct_sum, "ct_raises": ct_raises,
     "ct_badret": ct_badret, "caller": caller, "caller_of_bad": caller_of_bad,
     "caller_of_ct_raises": caller_of_ct_raises, "quantum": quantum, "arr": arr,
-    "use_overload": use_overload, "main_entry": main_entry,
+    "use_overload": use_overload, "main_entry": main_entry, "burn1": burn1, "nest": nest,
+    "ctor_value": ctor_value,
+}
+
+# Hand-written abstraction of the pool for the Engine model (validated against the observed
+# ENGINE.checked sets on every run): direct dependencies among pool definitions, whether the
+# definition's own check fails, whether it is traced (comptime) and whether its trace raises.
+def _m(deps=(), check_ok=True, comptime=False, trace_ok=True, is_type=False):
+    return {"deps": list(deps), "check_ok": check_ok, "comptime": comptime, "trace_ok": trace_ok,
+            "is_type": is_type}
+
+
+META = {
+    "plain": _m(), "branchy": _m(), "noret": _m(), "bad_type": _m(check_ok=False),
+    "bad_linear": _m(check_ok=False), "bad_name": _m(check_ok=False), "ident": _m(), "pair": _m(),
+    "use_generic": _m(["pair", "ident"]), "Pt": _m(is_type=True), "Box": _m(["Pt"], is_type=True),
+    "use_struct": _m(["Pt", "Box"]), "closure_rec": _m(), "closure_rec_nested": _m(),
+    "closure_plain": _m(), "generic_closure": _m(), "use_generic_closure": _m(["generic_closure"]),
+    "ct_sum": _m(["plain"], comptime=True), "ct_raises": _m(comptime=True, trace_ok=False),
+    "ct_badret": _m(comptime=True, trace_ok=False),
+    "caller": _m(["plain", "closure_rec", "ct_sum"]), "caller_of_bad": _m(["plain", "bad_type"]),
+    "caller_of_ct_raises": _m(["ct_raises"]), "quantum": _m(), "arr": _m(),
+    "use_overload": _m(["plain", "branchy"]), "main_entry": _m(["use_struct", "caller"]),
+    "burn1": _m(), "nest": _m(), "ctor_value": _m(["Pt"]),
 }
